@@ -171,6 +171,15 @@ impl<'a> Walk<'a> {
 }
 
 fn main() {
+    // a panic outside the per-operation guards (building the canonical maps, the order and
+    // associativity laws) is still data about SlotMap, not a failure of this tool
+    if let Err(p) = guard(real_main) {
+        println!("{}", json!({"kind":"finding","prop":"C19","what":"panic in a SlotMap operation","site":p.site,"detail":{"msg":p.msg}}));
+        println!("{}", json!({"kind":"summary","states":0,"reads":0,"order_pairs":0,"binary_rows":0,"assoc_triples":0,"paths":0,"steps":0,"maxlen":0,"findings":1}));
+    }
+}
+
+fn real_main() {
     let args: Vec<String> = std::env::args().collect();
     let t: Table = serde_json::from_str(&std::fs::read_to_string(&args[1]).unwrap()).unwrap();
     let maxlen: usize = args[2].parse().unwrap();
